@@ -18,6 +18,7 @@ TECH = {
     "C07": "static analysis: taint (str truncation), constant-table agreement, codec field coverage",
     "C08": "static analysis: dominance of length-equality guards, version dispatch tables",
     "C09": "static analysis: kind/prefix/variant agreement, dominance of NOT filter, column role provenance",
+    "C11": "static analysis: must-pass-through of the min reduction (no ancestor-closure shortcut), selection direction, role provenance",
     "C10": "static analysis: call-graph panic-freedom scan, slot-constant tables, zero-test dominance",
     "C12": "static analysis: taint of unchecked appends, search-arm dominance/polarity, merge-arm dispatch",
     "C13": "static analysis: sibling kernel agreement, filter polarity, field rules",
@@ -29,7 +30,6 @@ TECH = {
     "C20": "static analysis: call-graph panic-freedom scan + constant-table agreement",
 }
 NA = {
-    "C11": "distance/path minimality quantifies over all routes of a runtime DAG; no code-shape fact is a necessary condition (DESIGN §6) - static analysis cannot decide it",
     "C16": "order independence is a metamorphic relation over permutations of runtime inputs (memoised recursion, early exits, seeded hash maps); every structural necessary condition is already claimed under C01/C02/C12 (DESIGN §6)",
 }
 ALL = ["C%02d" % i for i in range(1, 21)]
